@@ -9,7 +9,7 @@ from the history of updates and the set of updates the replica has seen (Lean ju
 import re
 
 ID = "C39"
-LEAN_MODULES = ["GoaktVerif.Props.C39"]
+LEAN_MODULES = ["GoaktVerif.Props.C39", "GoaktVerif.Props.C39OS", "GoaktVerif.Props.C39MV"]
 THEOREMS = [
     "GoaktVerif.C39.J_sameSet",
     "GoaktVerif.C39.J_append",
@@ -32,13 +32,22 @@ THEOREMS = [
     "GoaktVerif.C39.C39_lww",
     "GoaktVerif.C39.ormap_readd_diverges",
     "GoaktVerif.C39.C39_refuted",
+    "GoaktVerif.C39.osCoreOf_merge",
+    "GoaktVerif.C39.add_inflationary",
+    "GoaktVerif.C39.remove_inflationary",
+    "GoaktVerif.C39.upd_states_eq",
+    "GoaktVerif.C39.os_laws",
+    "GoaktVerif.C39.C39_orset_fullstate",
+    "GoaktVerif.C39.mvCoreOf_merge",
+    "GoaktVerif.C39.mv_laws",
+    "GoaktVerif.C39.C39_mvregister",
 ]
 INPKG = ["actor/zz_verif_c41.go", "crdt/zz_verif_c38.go"]
 TIMEOUT = 900
 ORACLE_NEEDS_JUDGE = True
 MANIFEST = {
-    "level_text": "Kernel-checked: (1) a GENERIC convergence theorem over the replicator model (Model/C41 handlers handleUpdate/handleDelta, any number of replicas, codec between publisher and receiver, deltas delivered in any order / duplicated / never): if a type's merge is a join on cores and its mutators are delta-mutators (Laws), every replica's core is the join of the deltas it has seen (reach_inv), so replicas with the same seen-set hold the same core (converge) and a replica that has seen everything holds the join of all deltas (complete_eq_join_all, below_join_all); the ACI-fold lemmas J_sameSet/J_append are proved from the semilattice laws. (2) Instances: G-counter and PN-counter (no-overflow guard), Flag, and — since fix 670e96a — the LWW register (guard: a stamp names one write, timestamps >= 0) satisfy the laws (gc_laws, pn_laws, fl_laws, lw_laws) hence converge (C39_gcounter, C39_pncounter, C39_flag, C39_lww, C39_partial); the network of the theorem has delta deliveries in any order / duplicated / never AND full-state merges between any two replicas at any time. (3) The full statement over the seven types is REFUTED (C39_refuted) with two independent model witnesses evaluated by the kernel and replayed on the real code: OR-set deltas lose earlier adds (orset_delta_loses_add; Add is not a delta-mutator: orset_violates_delta_law), OR-map remove+re-set (ormap_readd_diverges); the former third witness (stale LWW write, C39-F2) is fixed by 670e96a and kept as lww_stale_write_ignored. Tie: real replicator actors with all seven types driven message by message, full store dumps compared with the model after every message.",
-    "level_note": "Partial. Proved instances: G-counter, PN-counter, Flag, LWW register. MV-register, OR-map-without-removes and OR-set-under-full-state-merge are covered by the differential + the Spec.C39 oracle only (no law instance proved; MV and OR-map ship full states, their merges are joins only up to C38's equivalences). Findings C39-F1 and C39-F3 are open (F1 needs a dot context in the delta: not a small fix; F3 is the OR-map value-merge design); C39-F2 is fixed (670e96a, seeded/C39-revert-lww-set). uint64 wrap of counters is excluded by guard.",
+    "level_text": "Kernel-checked: (1) a GENERIC convergence theorem over the replicator model (Model/C41 handlers handleUpdate/handleDelta, any number of replicas, codec between publisher and receiver, deltas delivered in any order / duplicated / never): if a type's merge is a join on cores and its mutators are delta-mutators (Laws), every replica's core is the join of the deltas it has seen (reach_inv), so replicas with the same seen-set hold the same core (converge) and a replica that has seen everything holds the join of all deltas (complete_eq_join_all, below_join_all); the ACI-fold lemmas J_sameSet/J_append are proved from the semilattice laws. (2) Instances: the MV register (guard: a dot names one write) and the OR-set under full-state replication (Props/C39MV, Props/C39OS), G-counter and PN-counter (no-overflow guard), Flag, and — since fix 670e96a — the LWW register (guard: a stamp names one write, timestamps >= 0) satisfy the laws (gc_laws, pn_laws, fl_laws, lw_laws) hence converge (C39_gcounter, C39_pncounter, C39_flag, C39_lww, C39_partial); the network of the theorem has delta deliveries in any order / duplicated / never AND full-state merges between any two replicas at any time. (3) The full statement over the seven types is REFUTED (C39_refuted) with two independent model witnesses evaluated by the kernel and replayed on the real code: OR-set deltas lose earlier adds (orset_delta_loses_add; Add is not a delta-mutator: orset_violates_delta_law), OR-map remove+re-set (ormap_readd_diverges); the former third witness (stale LWW write, C39-F2) is fixed by 670e96a and kept as lww_stale_write_ignored. Tie: real replicator actors with all seven types driven message by message, full store dumps compared with the model after every message.",
+    "level_note": "Partial. Proved instances: G-counter, PN-counter, Flag, LWW register, MV register (mv_laws, C39_mvregister: real ops and codec; guard: a dot names one write) and the OR-set under full-state replication (os_laws, C39_orset_fullstate: Merge is a join and Add/Remove are inflationary on the observation clock-function x (element,dot)-relation, C38's equivalence made an equality by extensionality; updates propagate their full state, delivered late / out of order / duplicated / never, plus fresh full-state merges; the codec is the identity in this instance, its preservation of entries/dots/clock being C40.orset_roundtrip). Not proved: OR-map without removes (differential + Spec.C39 oracle only). Findings C39-F1 and C39-F3 are open (F1 needs a dot context in the delta: not a small fix; F3 is the OR-map value-merge design); C39-F2 is fixed (670e96a, seeded/C39-revert-lww-set). uint64 wrap of counters is excluded by guard.",
     "technique": "Lean 4 proof (generic delta-CRDT convergence theorem over the replicator model + per-type law instances, refutation witnesses by kernel evaluation) + per-message differential against real replicator actors",
 }
 TRUSTED = [
